@@ -306,35 +306,32 @@ def interleaved_tokenizers(vi: int, a: int, b: int, s: int) -> bool:
 
 # ---- 3. grammar loading: order and custom paths --------------------------------------------------------
 def _loading(order, vi):
-    import tempfile
+    """a grammar loaded from an explicit path (the shipped 3.6 text) and a grammar loaded by version, in both orders"""
+    import hashlib
     from parso import grammar as GM
     v = VERS[vi]
-    src = os.path.join(os.path.dirname(parso.__file__), 'python', 'grammar36.txt')
+    base = os.path.join(os.path.dirname(parso.__file__), 'python')
+    src = os.path.join(base, 'grammar36.txt')
     saved = dict(GM._loaded_grammars)
-    tmp = tempfile.NamedTemporaryFile('w', suffix='.txt', delete=False)
     try:
-        tmp.write(open(src).read())
-        tmp.close()
         GM._loaded_grammars.clear()
         if order:
-            custom = parso.load_grammar(path=tmp.name, version=v) if False else parso.load_grammar(path=tmp.name)
+            custom = parso.load_grammar(path=src)
             std = parso.load_grammar(version=v)
         else:
             std = parso.load_grammar(version=v)
-            custom = parso.load_grammar(path=tmp.name)
-        want_std = open(os.path.join(os.path.dirname(parso.__file__), 'python', 'grammar%s.txt' % v.replace('.', ''))).read()
-        import hashlib
+            custom = parso.load_grammar(path=src)
+        want_std = open(os.path.join(base, 'grammar%s.txt' % v.replace('.', ''))).read()
         if std._hashed != hashlib.sha256(want_std.encode('utf-8')).hexdigest():
             return _no('load_grammar(version=%s) returned a grammar built from another text (custom path loaded %s)' % (
                 v, 'first' if order else 'second'))
         if custom._hashed != hashlib.sha256(open(src).read().encode('utf-8')).hexdigest():
-            return _no('load_grammar(path=custom) returned a grammar built from another text')
-        if parso.load_grammar(version=v) is not std:
+            return _no('load_grammar(path=...) returned a grammar built from another text')
+        if parso.load_grammar(version=v) is not std or parso.load_grammar(path=src) is not custom:
             return _no('load_grammar is not memoised consistently')
     finally:
         GM._loaded_grammars.clear()
         GM._loaded_grammars.update(saved)
-        os.unlink(tmp.name)
     return True
 
 
